@@ -31,6 +31,7 @@ import SharkVerif.Lemmas.McSolve
 import SharkVerif.Lemmas.McSimplex
 import SharkVerif.Lemmas.McLinearMc
 import SharkVerif.Lemmas.McBias
+import SharkVerif.Lemmas.McSolveStuck
 namespace SharkVerif.C16
 open SharkVerif.Mc SharkVerif.Gen.McTables SharkVerif.McTables
 
@@ -422,6 +423,13 @@ theorem solve_generated_configuration_invariant (f : Family) (c n : Nat) (hc : 2
   solve_configuration_invariant (problem f c n C (gramK T φ) labels linMat)
     (invariants_initially f c n hc C hC _ (gramK_symm T φ) labels hl linMat)
     (generated_Q_psd f c n hc C T φ labels hl linMat) eps sh1 sh2 m1 m2 h1 h2
+
+/-- **the loop never leaves the preconditions of the operations it calls**: for a positive accuracy `updateSMO(i,j)`
+is always called with `i, j < m_activeVar` (the SIZE_CHECK that NDEBUG compiles out) — from any state, for any
+iteration limit, shrinking on or off.  (`selectWorkingSet` names active variables whenever it reports a positive
+violation, and the `shrink` between the two selections of a pass never deactivates a violating variable.) -/
+theorem solve_never_stuck_box (s : McBox Rat) (eps : Rat) (heps : 0 < eps) (maxIter : Nat) :
+    (solve s eps maxIter).stop ≠ .stuck := solve_never_stuck s eps heps maxIter
 
 /-- non-vacuity of the hypothesis `stop = accuracy`: MMR table, one example, `K = 1`, `C = 1`, accuracy 2: the first
 pass sees the violation `1 < 2`, unshrinks, re-checks and stops -/
